@@ -19,7 +19,7 @@ type c15Case struct {
 	alias   int        // 0 none, 1 X->T, 2 X->Y,Y->T, 3 X->Y,Y->X (alias cycle; the variable is typed by X), 4 X->Y|Z, Y->X|Z, Z->X|Y (cycle through unions)
 	wrap    int        // 0 T, 1 T[], 2 table<string,T> (v["k"].), 3 table<number,T> (v[1].), 4 a class field of type table<string,T> (v.f.k.), 5 table<string,table<string,T>> (v.x.y.)
 	split   bool       // declarations in defs.lua, variable in main.lua
-	layout  int        // 0 class blocks separated by blank lines; 1 one contiguous comment block; 2 one file per class; 3 every class declared in two files (each part with its own field)
+	layout  int        // 0 class blocks separated by blank lines; 1 one contiguous comment block; 2 one file per class; 3 every class declared in two files (each part with its own field); 4 the file of a class also holds a part of each of its direct parents (field f<parent>_<child>)
 }
 
 func (c c15Case) fieldOf(cl string) string { return "f" + strings.ToLower(cl) }
@@ -48,6 +48,19 @@ func (c c15Case) expected() map[string]bool {
 		if c.layout == 3 {
 			out[c.fieldOf(n)+"2"] = true
 		}
+		if c.layout == 4 {
+			// every part of n counts, also the parts that live in the files of the classes naming n as a parent
+			for k, m := range c.classes {
+				if m == n {
+					continue
+				}
+				for _, p := range c.parents[k] {
+					if p == n {
+						out[c.fieldOf(n)+"_"+strings.ToLower(m)] = true
+					}
+				}
+			}
+		}
 	}
 	return out
 }
@@ -62,6 +75,21 @@ func (c c15Case) build() (files map[string]string, mainFile string, access strin
 		h := "---@class " + n
 		if len(c.parents[i]) > 0 {
 			h += " : " + strings.Join(c.parents[i], ", ")
+		}
+		if c.layout == 4 {
+			var sb strings.Builder
+			ln := 0
+			for _, p := range c.parents[i] {
+				if p != n {
+					sb.WriteString("---@class " + p + "\n---@field " + c.fieldOf(p) + "_" + strings.ToLower(n) + " number\n\n")
+					fieldLines[c.fieldOf(p)+"_"+strings.ToLower(n)] = [2]interface{}{"class_" + strings.ToLower(n) + ".lua", ln + 1}
+					ln += 3
+				}
+			}
+			sb.WriteString(h + "\n---@field " + c.fieldOf(n) + " number\n")
+			fieldLines[c.fieldOf(n)] = [2]interface{}{"class_" + strings.ToLower(n) + ".lua", ln + 1}
+			perClass["class_"+strings.ToLower(n)+".lua"] = sb.String()
+			continue
 		}
 		if c.layout == 2 || c.layout == 3 {
 			perClass["class_"+strings.ToLower(n)+".lua"] = h + "\n---@field " + c.fieldOf(n) + " number\n"
@@ -184,7 +212,7 @@ func c15Cases(tier string) []c15Case {
 		for alias := 0; alias < 5; alias++ {
 			for wrap := 0; wrap < 6; wrap++ {
 				for _, split := range []bool{false, true} {
-					for layout := 0; layout < 4; layout++ {
+					for layout := 0; layout < 5; layout++ {
 						out = append(out, c15Case{two, ps, alias, wrap, split, layout})
 					}
 				}
@@ -195,7 +223,7 @@ func c15Cases(tier string) []c15Case {
 	// thorough: crossed with the alias shapes and wrappers as well
 	three := []string{"A", "B", "C"}
 	for _, ps := range graphs(three) {
-		for layout := 0; layout < 4; layout++ {
+		for layout := 0; layout < 5; layout++ {
 			for _, split := range []bool{false, true} {
 				out = append(out, c15Case{three, ps, 0, 0, split, layout})
 				if tier == "thorough" {
@@ -296,7 +324,11 @@ func c15Space(tier string) *core.Space {
 				}
 			}
 			for _, n := range c.classes {
-				for _, f := range []string{c.fieldOf(n), c.fieldOf(n) + "2"} {
+				cand := []string{c.fieldOf(n), c.fieldOf(n) + "2"}
+				for _, m := range c.classes {
+					cand = append(cand, c.fieldOf(n)+"_"+strings.ToLower(m))
+				}
+				for _, f := range cand {
 					if labels[f] && !want[f] && c.alias < 3 {
 						extra = append(extra, f)
 					}
@@ -308,8 +340,10 @@ func c15Space(tier string) *core.Space {
 			sort.Strings(missing)
 			sort.Strings(extra)
 			if len(missing) > 0 {
+				ctx += " | missing " + strings.Join(missing, ",")
 				fail("inherited-or-declared-member-missing-from-completion", map[string]interface{}{"missing": missing, "offered": keys(labels)})
 			} else if len(extra) > 0 {
+				ctx += " | extra " + strings.Join(extra, ",")
 				fail("member-of-unrelated-class-offered", map[string]interface{}{"extra": extra, "offered": keys(labels)})
 			} else {
 				r.Outcome("members-exact")
